@@ -123,6 +123,7 @@ struct Client {
         uint64_t user_tag = 0;
         int blocks_bucket = 0;  // log2 bucket of the in-flight segment (state measure)
         bool rejected_pending = false; // was rejected at least once (C11 follow-up probe)
+        bool contract_broken = false;  // the library accepted a misuse on this context: digest oracle off
         // long-stream mode (C15)
         uint64_t long_pos = 0;
         Client() : ref(A_SHA1) {}
@@ -319,6 +320,14 @@ struct HashMgrSim : Sim {
                                     strfmt("%s: client %d handed back by %s while still marked PROCESSING (status 0x%x)", s.tag.c_str(), ci, via, st),
                                     false);
                 uint32_t want = c.last_sent ? (uint32_t) ISAL_HASH_CTX_STS_COMPLETE : (uint32_t) ISAL_HASH_CTX_STS_IDLE;
+                if (c.contract_broken) {
+                        // which segment the manager believes to be current is undefined after an accepted misuse: only conservation is judged
+                        if (st == ISAL_HASH_CTX_STS_COMPLETE) {
+                                c.complete = true;
+                                c.started = false;
+                        }
+                        return;
+                }
                 if (st != want)
                         e.violation("C06", "wrong-status", "C06/wrong-status/" + s.tag,
                                     strfmt("%s: client %d handed back by %s with status 0x%x, expected 0x%x (%s)", s.tag.c_str(), ci, via, st, want,
@@ -480,6 +489,7 @@ struct HashMgrSim : Sim {
                         c.total = 0;
                         c.started = true;
                         c.complete = false;
+                        c.contract_broken = false;
                 }
                 c.ref.update(buf, len);
                 c.total += len;
@@ -629,9 +639,22 @@ struct HashMgrSim : Sim {
                 e.obs(0x13, (uint64_t) rc);
                 e.obs(0x14, ret == (uint64_t) (uintptr_t) c.ctx);
                 std::string site = std::string(d.name) + "/" + s.f->name + "/" + kn[kind];
-                if (ret != (uint64_t) (uintptr_t) c.ctx)
+                if (ret != (uint64_t) (uintptr_t) c.ctx) {
+                        // the library took a call it must refuse. C11 reports that; for the other properties the call is now an accepted
+                        // submission the caller never intended: the conservation model (C06) keeps running on what the manager really does,
+                        // the digest oracle (C01) is switched off for this client (the API contract was not respected).
                         e.violation("C11", "not-handed-back", "C11/not-handed-back/" + site,
-                                    strfmt("%s: rejected submit (%s) on client %d was not handed straight back", s.tag.c_str(), kn[kind], ci), false);
+                                    strfmt("%s: rejected submit (%s) on client %d was not handed straight back", s.tag.c_str(), kn[kind], ci));
+                        c.contract_broken = true;
+                        s.r->cov.hit("probe_misuse_accepted_by_library");
+                        if (!c.in_flight) {
+                                c.in_flight = true;
+                                s.inflight++;
+                        }
+                        process_return(s, ret, ci, "submit");
+                        post_call_invariants(s, "misuse accepted as a submit");
+                        return;
+                }
                 int err = (int) u32(c.ctx, d.off_error);
                 if (err != want_err)
                         e.violation("C11", "wrong-error", "C11/wrong-error/" + site,
